@@ -5,6 +5,9 @@
 set -u
 id="$1"; prop="$2"; wt="$3"; demo="$4"; run="$5"; needs="$6"; shift 6
 export GOFLAGS=-mod=mod GOPROXY=off
+# runs against a changed /repo must not replace the evidence of the unchanged tree
+rm -rf /var/tmp/evidence.keep; cp -r /verif/evidence /var/tmp/evidence.keep
+trap 'rm -rf /verif/evidence; mv /var/tmp/evidence.keep /verif/evidence' EXIT
 out=/verif/seeded/$id; mkdir -p "$out"
 cd "$wt" || exit 2
 git diff -- . ':(exclude)*zz_demo_test.go' > "$out/patch.diff"
